@@ -82,8 +82,13 @@ func (e *Engine) isMutableGlobal(o *types.Var) bool {
 		e.writtenGlobals = map[types.Object][]string{}
 		for _, p := range e.Pkgs {
 			for _, f := range p.Syntax {
+				curFunc := ""
 				ast.Inspect(f, func(n ast.Node) bool {
+					if fd, ok := n.(*ast.FuncDecl); ok {
+						curFunc = fd.Name.Name
+					}
 					mark := func(ex ast.Expr, how string) {
+						how = how + " in " + curFunc
 						id := rootIdent(ex)
 						if id == nil {
 							return
@@ -478,6 +483,12 @@ func (e *Engine) verifyFuncPass(key string, pass int, proved map[string]bool) *F
 		}
 		c.finishPath(o.st, o.kind == oReturn)
 	}
+	if spec.Determined {
+		c.uniqueness()
+	}
+	if len(spec.Deterministic) > 0 {
+		c.detPass()
+	}
 	for _, a := range spec.Asserts {
 		if !c.assertSeen[a.Label+"|"+a.Expr] {
 			c.unsupported(token.NoPos, "assert %q was not evaluated on any path (site %q never reached or unknown names)", a.Label, a.At)
@@ -609,4 +620,162 @@ func (c *FnCtx) finishPath(st *State, explicit bool) {
 	c.oblige(st, "cover", fmt.Sprintf("return%d", c.retPaths), "false", c.spec.Props, "return path reachable")
 	c.obls[len(c.obls)-1].ExpectSat = true
 	c.obls[len(c.obls)-1].ID = c.fi.Key + "#cover.return"
+}
+
+// uniqueness: the postconditions determine the results. Two arbitrary outcomes (results and post-states of the
+// modified pointees) that both satisfy every ensures clause for the same pre-state are equal. Together with the
+// proved postconditions this makes the function's result independent of map iteration order and of anything else.
+func (c *FnCtx) uniqueness() {
+	st := c.entry.Clone()
+	sig := c.fi.Obj.Type().(*types.Signature)
+	mk := func(tag string) (map[string]Val, []Val, map[string]Val) {
+		names := map[string]Val{}
+		for n, o := range c.specNames {
+			names[n] = c.varVal(c.entry, o)
+		}
+		posts := map[string]Val{}
+		for _, m := range c.spec.Modifies {
+			o, ok := c.specNames[m]
+			if !ok {
+				continue
+			}
+			pv := c.entry.vars[o]
+			si := c.eng.Sorts.Info(pv.Sort)
+			if si == nil || si.Kind != KPtr {
+				continue
+			}
+			nv := c.fresh(m+"_"+tag, si.Elem)
+			v := Val{T: Term{app(si.Ctor, app(pv.Sort+".nonnil", pv.S), nv.S), pv.Sort}, GoT: o.Type()}
+			names[m] = v
+			posts[m] = Val{T: nv}
+		}
+		var res []Val
+		for i := 0; i < sig.Results().Len(); i++ {
+			rt := sig.Results().At(i).Type()
+			r := c.fresh(fmt.Sprintf("res%d_%s", i, tag), c.eng.Sorts.SortOf(rt))
+			st.Assume(c.typeFacts(r, rt))
+			v := Val{T: r, GoT: rt}
+			res = append(res, v)
+			names[fmt.Sprintf("result%d", i)] = v
+		}
+		if len(res) == 1 {
+			names["result"] = res[0]
+		}
+		return names, res, posts
+	}
+	oldNames := map[string]Val{}
+	for n, o := range c.specNames {
+		oldNames[n] = c.varVal(c.entry, o)
+	}
+	for k, v := range c.entry.spec {
+		if _, ok := oldNames[k]; !ok {
+			oldNames[k] = v
+		}
+	}
+	n1, r1, p1 := mk("a")
+	n2, r2, p2 := mk("b")
+	ok := true
+	c.guarded(st, func() {
+		for _, names := range []map[string]Val{n1, n2} {
+			env := &Env{c: c, st: st, names: names, pkg: c.fi.Pkg, old: &Env{c: c, st: c.entry, names: oldNames, pkg: c.fi.Pkg}}
+			for _, en := range c.spec.Ensures {
+				st.Assume(env.evalSpecBool(en))
+			}
+		}
+	})
+	if st.dead {
+		ok = false
+	}
+	if !ok {
+		return
+	}
+	var goals []string
+	same := func(a, b Term, t types.Type) string {
+		si := c.eng.Sorts.Info(a.Sort)
+		if si != nil {
+			switch si.Kind {
+			case KIface:
+				if a.Sort == "I.error" {
+					return eq(eq(a.S, "I.error.nil"), eq(b.S, "I.error.nil")) // only nil-ness of errors is observable
+				}
+			case KMap:
+				return fmt.Sprintf("(forall ((k!u %s)) (and (= (select (%s.has %s) k!u) (select (%s.has %s) k!u)) (=> (select (%s.has %s) k!u) (= (select (%s.val %s) k!u) (select (%s.val %s) k!u)))))",
+					si.Key, a.Sort, a.S, a.Sort, b.S, a.Sort, a.S, a.Sort, a.S, a.Sort, b.S)
+			case KSlice:
+				return fmt.Sprintf("(and (= (%s.len %s) (%s.len %s)) (forall ((i!u Int)) (=> (and (<= 0 i!u) (< i!u (%s.len %s))) (= (select (%s.arr %s) i!u) (select (%s.arr %s) i!u)))))",
+					a.Sort, a.S, a.Sort, b.S, a.Sort, a.S, a.Sort, a.S, a.Sort, b.S)
+			}
+		}
+		return eq(a.S, b.S)
+	}
+	for i := range r1 {
+		goals = append(goals, same(r1[i].T, r2[i].T, r1[i].GoT))
+	}
+	for m := range p1 {
+		goals = append(goals, same(p1[m].T, p2[m].T, nil))
+	}
+	c.curPos = c.fi.Decl.Pos()
+	c.oblige(st, "det", "unique", and(goals...), c.spec.Props, "the postconditions determine the results (two outcomes satisfying every ensures clause are equal): independent of map iteration order")
+}
+
+// detPass: determinism discipline inside a function marked deterministic (DESIGN.md 7.13): no goroutines, channels,
+// select, time/rand/environment; every map-range loop needs the function to be `determined` (uniqueness obligation).
+func (c *FnCtx) detPass() {
+	var bad []string
+	mapLoops := 0
+	ast.Inspect(c.fi.Decl.Body, func(n ast.Node) bool {
+		pos := func(p token.Pos) string { return fmt.Sprintf("line %d", c.eng.Fset.Position(p).Line) }
+		switch x := n.(type) {
+		case *ast.GoStmt:
+			bad = append(bad, "go statement at "+pos(x.Pos()))
+		case *ast.SelectStmt:
+			bad = append(bad, "select at "+pos(x.Pos()))
+		case *ast.SendStmt:
+			bad = append(bad, "channel send at "+pos(x.Pos()))
+		case *ast.UnaryExpr:
+			if x.Op == token.ARROW {
+				bad = append(bad, "channel receive at "+pos(x.Pos()))
+			}
+		case *ast.RangeStmt:
+			if t := c.info.TypeOf(x.X); t != nil {
+				if _, ok := t.Underlying().(*types.Map); ok {
+					mapLoops++
+				}
+			}
+		case *ast.SelectorExpr:
+			if id, ok := x.X.(*ast.Ident); ok {
+				if pn, ok := c.info.ObjectOf(id).(*types.PkgName); ok {
+					switch pn.Imported().Path() {
+					case "time", "math/rand", "crypto/rand", "math/rand/v2":
+						bad = append(bad, pn.Imported().Path()+"."+x.Sel.Name+" at "+pos(x.Pos()))
+					case "os":
+						if x.Sel.Name == "Getenv" || x.Sel.Name == "Environ" || x.Sel.Name == "Getpid" || x.Sel.Name == "Hostname" {
+							bad = append(bad, "os."+x.Sel.Name+" at "+pos(x.Pos()))
+						}
+					}
+				}
+			}
+		}
+		return true
+	})
+	props := c.spec.Deterministic
+	c.curPos = c.fi.Decl.Pos()
+	g := "true"
+	if len(bad) > 0 {
+		g = "false"
+	}
+	c.oblige(c.entry.Clone(), "det", "discipline", g, props, "no goroutine, channel, select, clock, random or environment access in the body")
+	if len(bad) > 0 {
+		o := c.obls[len(c.obls)-1]
+		o.Status, o.Backend, o.Output = "failed", "constfold", strings.Join(bad, "; ")
+	}
+	g2 := "true"
+	if mapLoops > 0 && !c.spec.Determined {
+		g2 = "false"
+	}
+	c.oblige(c.entry.Clone(), "det", "maprange", g2, props, fmt.Sprintf("%d map-range loop(s): allowed only when the postconditions determine the result (clause `determined`)", mapLoops))
+	if g2 == "false" {
+		o := c.obls[len(c.obls)-1]
+		o.Status, o.Backend, o.Output = "failed", "constfold", "map iteration order may reach the result: no uniqueness obligation"
+	}
 }
